@@ -293,13 +293,21 @@ def check(ctx: C.Ctx, cases, with_rc4: bool = True) -> None:
                     del calls[:]
                     try:
                         o = doc2.getobj(n)
+                        phase1 = sorted(c for (oid, c) in calls if oid == n)      # made by getobj itself
+                        del calls[:]
                         if hasattr(o, "get_data"):
                             o.get_data()
-                        got = " ".join(sorted(c for (oid, c) in calls if oid == n)) or "-"
+                        phase2 = sorted(c for (oid, c) in calls if oid == n)      # made by get_data()
+                        del calls[:]
+                        doc2.getobj(n)                                            # cache off: parsed again
+                        phase3 = sorted(c for (oid, c) in calls if oid == n)
+                        got = " ".join(phase1 or ["-"]) + " | " + " ".join(phase2 or ["-"]) + " | " + \
+                            " ".join(phase3 or ["-"])
                     except Exception as e:  # noqa: BLE001
                         got = "EXC:" + type(e).__name__
                     add("trace %s %d %d %s" % (loc, n, g, " ".join(c10.canon_ref(v))), got,
-                        ("trace", dict(base, objid=n)), (lambda t: " ".join(sorted(t.split(" ")))))
+                        ("trace", dict(base, objid=n)),
+                        (lambda t: " | ".join(" ".join(sorted(part.split(" "))) for part in t.split(" | "))))
             if wr.enc_id is not None:
                 try:
                     got = " ".join(c10.canon_impl(doc.getobj(wr.enc_id)))
